@@ -317,4 +317,7 @@ if __name__ == "__main__":
               r.get("tb", "") if a.v else "")
     s = summarise(table)
     print({k: s[k] for k in s if k != "rows"})
+    if os.environ.get("LCMSA_SELFTEST_TABLE"):
+        Path(os.environ["LCMSA_SELFTEST_TABLE"]).write_text(json.dumps(
+            [{k: r.get(k) for k in ("id", "expect", "ok", "fired", "keys", "undecided", "not_passing")} for r in table], indent=1))
     sys.exit(2 if miss else 0)
